@@ -1,5 +1,14 @@
-import SaoVerif.Generated.Skeleton
-import SaoVerif.Spec.SkeletonExpected
+import SaoVerif.Skeleton.x_did_keeper_msg_server_binding_go
+import SaoVerif.Skeleton.x_did_keeper_msg_server_update_go
+import SaoVerif.Skeleton.x_node_keeper_hooks_go
+import SaoVerif.Skeleton.x_node_keeper_reputation_go
+import SaoVerif.Skeleton.x_node_keeper_node_go
+import SaoVerif.Skeleton.x_node_abci_go
+import SaoVerif.Skeleton.x_sao_keeper_msg_server_terminate_go
+import SaoVerif.Skeleton.x_model_keeper_data_management_go
+import SaoVerif.Skeleton.x_sao_keeper_expired_shard_go
+import SaoVerif.Skeleton.x_did_keeper_utils_go
+import SaoVerif.Skeleton.app_app_go
 /-!
 # C01 — the decision logic of the anchor files is the one that was modelled
 
@@ -7,9 +16,10 @@ The extractor (harness/cmd/extract) regenerates, on every run and from the tree 
 function: its branching constructs in source order, each guard with its condition and with how its branch ends (`return <err>`,
 `continue`, `panic`, …). The hand-written model mirrors exactly these decisions (its `…Pre` / `…Guards` functions are the
 guards of the handlers, in their order). This theorem says that for the files the property is anchored in
-(x/did/keeper/msg_server_binding.go, x/did/keeper/msg_server_update.go, x/node/keeper/hooks.go, x/node/keeper/reputation.go, x/node/keeper/node.go, x/node/abci.go, x/sao/keeper/msg_server_terminate.go, x/model/keeper/data_management.go, x/sao/keeper/expired_shard.go, x/did/keeper/utils.go, app/app.go) the regenerated skeletons equal the ones the model was written against. A change of a guard, of its
-order, or a new or removed branch breaks it: the correspondence then has to be re-established (the check searches the
-histories for a failing input and reports the violation either way).
+(x/did/keeper/msg_server_binding.go, x/did/keeper/msg_server_update.go, x/node/keeper/hooks.go, x/node/keeper/reputation.go, x/node/keeper/node.go, x/node/abci.go, x/sao/keeper/msg_server_terminate.go, x/model/keeper/data_management.go, x/sao/keeper/expired_shard.go, x/did/keeper/utils.go, app/app.go) the regenerated skeletons equal the ones the model was written against
+(one kernel-evaluated equality per source file, `SaoVerif/Skeleton/<file>.lean`). A change of a guard, of its order, or a new or
+removed branch breaks it: the correspondence then has to be re-established (the check searches the histories for a failing
+input and reports the violation either way).
 -/
 namespace SaoVerif
 
@@ -36,6 +46,6 @@ theorem C01_decision_skeleton_as_modelled :
      Expected.Skel.x_sao_keeper_expired_shard_go,
      Expected.Skel.x_did_keeper_utils_go,
      Expected.Skel.app_app_go] := by
-  decide +kernel
+  rw [skel_x_did_keeper_msg_server_binding_go, skel_x_did_keeper_msg_server_update_go, skel_x_node_keeper_hooks_go, skel_x_node_keeper_reputation_go, skel_x_node_keeper_node_go, skel_x_node_abci_go, skel_x_sao_keeper_msg_server_terminate_go, skel_x_model_keeper_data_management_go, skel_x_sao_keeper_expired_shard_go, skel_x_did_keeper_utils_go, skel_app_app_go]
 
 end SaoVerif
